@@ -5,7 +5,7 @@ from core import Result
 import proto, gen, kernels, implutil
 from props.C03 import float_tie
 
-THEOREMS = ['C01_structure', 'C01_row', 'C01_total', 'C01_rows', 'C01_degenerate', 'C01_labelling_total', 'C01_three_oscillations', 'C01_pipeline']
+THEOREMS = ['C01_structure', 'C01_row', 'C01_total', 'C01_rows', 'C01_degenerate', 'C01_labelling_total', 'C01_three_oscillations', 'C01_pipeline', 'C01_routing']
 RULE = ("generated signals of all families (sinusoidal, asymmetric, bursty, 1/f, sums, chirps, quantised, clipped, plateaus, zeroed stretches, DC offsets, 6 decades of scale) x "
         "fs x band x filter length (default / n_cycles 2..5 / n_seconds) x boundary x pad x centre extremum x burst method (with valid threshold / burst options) x return_samples, "
         "through compute_features and Bycycle.fit; judge: the Lean predicate wellFormed on the implementation's sample columns, row count = kept peaks - 1 from the Lean "
